@@ -451,9 +451,16 @@ class Analysis:
             return None
 
         reraise_sites: Dict[int, List[Node]] = {}
+        convert_sites: Dict[int, List[Node]] = {}
+        self._convert_sites = convert_sites
         for n in g.nodes:
             if n not in reach or n.exc is None:
                 continue
+            if n.kind == "raise" and isinstance(n.ast, ast.Raise) and n.ast.exc is not None and start_filter is not None:
+                # a handler that raises something else converts whatever it caught
+                h = enclosing_handler(n.ast)
+                if h is not None:
+                    convert_sites.setdefault(id(h), []).append(n)
             if n.kind == "raise" and isinstance(n.ast, ast.Raise) and n.ast.exc is None:
                 h = enclosing_handler(n.ast)
                 if h is not None:
@@ -515,6 +522,9 @@ class Analysis:
         s.add(item)
         for rn in reraise_sites.get(id(h), []):
             send(rn.exc, item)
+        for rn in getattr(self, "_convert_sites", {}).get(id(h), []):
+            for t in self.raise_stmt_types(fn, rn):
+                send(rn.exc, (t, item[1]))
 
     def handler_types(self, fn: FunctionInfo, h: ast.ExceptHandler) -> Optional[List[str]]:
         if h.type is None:
